@@ -1296,4 +1296,4 @@ def mon_c02_all(sc, res):
 
 
 def mon_c03_all(sc, res):
-    return mon_c03(sc, res) + mon_route_refusals(sc, res)
+    return mon_c03(sc, res) + mon_c02(sc, res) + mon_route_refusals(sc, res)
